@@ -1,4 +1,5 @@
 import Tpp.Lemmas.Step
+import Tpp.Lemmas.RendOnly
 /-!
 C09 – erases leave default-attribute blanks and keep attribute tracking right.
 
@@ -45,6 +46,32 @@ theorem C09_erase_after (beh : Behaviour) (st : TermState × VT) (hA : Agree st.
     vt'.cx = mid.2.cx ∧ vt'.cy = mid.2.cy ∧ vt'.pending = mid.2.pending := by
   have hmid := agree_run beh evs st hA hwf
   obtain ⟨a, b, _, c, d, e, _, _⟩ := C09_erase beh _ _ hmid k
+  exact ⟨a, b, c, d, e⟩
+
+/-- **no size needed**: the region an erase clears is relative to where the terminal's cursor really is, and
+    the reset before it depends only on the rendition – so the statement holds when merely the rendition half
+    of the belief is true (no `set_size`, a wrong `set_size`, a false belief about the cursor) -/
+theorem C09_erase_any_size (beh : Behaviour) (s : TermState) (vt : VT) (hA : AgreeRend s vt) (k : EraseKind) :
+    let vt' := vt.feedAll (step beh s (.erase k)).2
+    (∀ x y, eraseRegion k vt.cx vt.cy x y = true → vt'.cell x y = Cell.blank) ∧
+    (∀ x y, eraseRegion k vt.cx vt.cy x y = false → vt'.cell x y = vt.cell x y) ∧
+    (∀ x y, vt'.cells (!vt.alt) x y = vt.cells (!vt.alt) x y) ∧
+    vt'.cx = vt.cx ∧ vt'.cy = vt.cy ∧ vt'.pending = vt.pending ∧ vt'.rend = {} ∧ vt'.alt = vt.alt := by
+  have hb : (step beh s (.erase k)).2 = (step beh (s.forgetPos vt) (.erase k)).2 :=
+    (step_indep beh s (s.forgetPos vt) (.erase k) rfl rfl rfl).1
+  rw [hb]
+  exact C09_erase beh _ vt (agree_forgetPos s vt hA) k
+
+/-- … after every history of the rendition-only domain (README use included) -/
+theorem C09_erase_after_any_size (beh : Behaviour) (st : TermState × VT) (hA : AgreeRend st.1 st.2) (evs : List REv)
+    (hwf : RRunWF beh st evs) (k : EraseKind) :
+    let mid := RSys.run beh st evs
+    let vt' := mid.2.feedAll (step beh mid.1 (.erase k)).2
+    (∀ x y, eraseRegion k mid.2.cx mid.2.cy x y = true → vt'.cell x y = Cell.blank) ∧
+    (∀ x y, eraseRegion k mid.2.cx mid.2.cy x y = false → vt'.cell x y = mid.2.cell x y) ∧
+    vt'.cx = mid.2.cx ∧ vt'.cy = mid.2.cy ∧ vt'.pending = mid.2.pending := by
+  have hmid := (agreeRend_run beh evs st hA hwf).1
+  obtain ⟨a, b, _, c, d, e, _, _⟩ := C09_erase_any_size beh _ _ hmid k
   exact ⟨a, b, c, d, e⟩
 
 /-- attribute tracking stays right: the belief after an erase is true of the terminal, so text written after
